@@ -1160,7 +1160,7 @@ def judge(progs, acc, tier, cls="T0", samples=0):
 # ======================================================================================== runner interface
 def shards(ctx):
     n = len(catalogue(ctx.thorough))
-    k = 96 if ctx.thorough else 32
+    k = 64 if ctx.thorough else 16
     size = (n + k - 1) // k
     return [(lo, min(lo + size, n)) for lo in range(0, n, size)]
 
